@@ -61,6 +61,11 @@ pub enum Req {
     /// the chain scenario this is a plain AddBlock.  ch >= 2: same for channel ch % 2, but the
     /// block is delivered streamed
     AddBlockClose { ch: u8 },
+    /// sign counterparty commitment 1 with one outgoing HTLC of 40 000 sat for hash 0, which the
+    /// initial state approves for 50 000 sat: each such request is fine alone, two of them on two
+    /// channels overpay (validate and apply of the node-wide payment ledger must be one step).
+    /// phase1 = raw entry point (transaction + witness scripts), else the semantic one
+    CSignPay { ch: u8, phase1: bool },
 }
 
 #[derive(Clone, Debug, Serialize, Deserialize)]
@@ -93,6 +98,7 @@ fn req_strat() -> impl Strategy<Value = Req> {
         2 => Just(Req::AddBlock),
         1 => (0u8..2).prop_map(|k| Req::Allowlist { k }),
         2 => Just(Req::SignOnchain),
+        4 => (ch(), any::<bool>()).prop_map(|(ch, phase1)| Req::CSignPay { ch, phase1 }),
     ]
 }
 
@@ -210,6 +216,9 @@ fn fresh_world() -> World {
         let p0 = w.chans[ci].cp.point(&secp, 0);
         w.node.with_channel(&id0, |ch| ch.sign_counterparty_commitment_tx_phase2(&p0, 0, c0.feerate, c0.to_holder, c0.to_cp, vec![], vec![])).expect("cp 0");
     }
+    // hash 0 is approved for 50 000 sat (see CSignPay)
+    let payee = PublicKey::from_secret_key(&secp, &SecretKey::from_slice(&[5u8; 32]).unwrap());
+    w.node.add_keysend(payee, phash(0), 50_000_000).expect("keysend approval");
     w
 }
 
@@ -236,6 +245,8 @@ impl Ctx2 {
 }
 
 struct ChanData {
+    /// CSignPay: content, counterparty commitment transaction 1 and its output witness scripts
+    pay: Option<(Content, Transaction, Vec<Vec<u8>>)>,
     holder_sigs: Vec<Vec<(Content, bitcoin::secp256k1::ecdsa::Signature, Vec<bitcoin::secp256k1::ecdsa::Signature>)>>,
     cp_points: Vec<PublicKey>,
     cp_secrets: Vec<SecretKey>,
@@ -257,7 +268,23 @@ fn prepare(f: &Fresh) -> Ctx2 {
             }
             holder_sigs.push(per_variant);
         }
+        let pay = if f.chain {
+            None
+        } else {
+            let mut c = content(false, 1, 0);
+            c.received.clear();
+            c.offered = vec![Htlc { h: 0, sat: 40_000, cltv: 1000 }];
+            let weight = 724 + 172;
+            let fee = 1000 * weight / 1000;
+            c.to_cp = BASE_CP;
+            c.to_holder = VALUE - BASE_CP - 40_000 - fee;
+            let point = ch.cp.point(&secp, 1);
+            let ctx = ch.ref_cp_commitment(&secp, 1, &point, &c);
+            let ws = witscripts(ch, &secp, &ctx, false);
+            Some((c, ctx.trust().built_transaction().transaction.clone(), ws))
+        };
         chans.push(ChanData {
+            pay,
             holder_sigs,
             cp_points: (0..3).map(|n| ch.cp.point(&secp, n)).collect(),
             cp_secrets: (0..3).map(|n| ch.cp.secret(n)).collect(),
@@ -394,6 +421,17 @@ fn exec(cx: &Ctx2, r: &Req) -> String {
                     "ok:".into()
                 }
                 Err(_) => "err".into(),
+            }
+        }
+        Req::CSignPay { ch, phase1 } => {
+            let ci = *ch as usize % 2;
+            let Some((c, tx, ws)) = &cx.chans[ci].pay else { return "err".into() };
+            let p = cx.chans[ci].cp_points[1];
+            let (cpo, cpr) = (to_info2(&c.received), to_info2(&c.offered));
+            if *phase1 {
+                st(node.with_channel(&cx.ids[ci], |chn| chn.sign_counterparty_commitment_tx(tx, ws, &p, 1, c.feerate, cpo.clone(), cpr.clone())).map(|s| format!("{}", s)))
+            } else {
+                st(node.with_channel(&cx.ids[ci], |chn| chn.sign_counterparty_commitment_tx_phase2(&p, 1, c.feerate, c.to_holder, c.to_cp, cpo.clone(), cpr.clone())).map(|(s, h)| format!("{}:{}", s, h.len())))
             }
         }
         Req::Allowlist { k } => {
@@ -572,6 +610,11 @@ impl Prop for C20 {
             }
         }
         let seq = seq_out.lock().unwrap().clone();
+        if std::env::var("VERIF_DEBUG").is_ok() {
+            for o in seq.iter() {
+                eprintln!("sequential outcome: replies {:?}", o.replies);
+            }
+        }
 
         // (i) + (ii) concurrent executions
         let bad: std::sync::Arc<std::sync::Mutex<Option<Outcome>>> = std::sync::Arc::new(std::sync::Mutex::new(None));
